@@ -30,6 +30,15 @@ func (c *IContext) Canceled() bool {
 	return c.p.canceled
 }
 
+// Reactivate 已取消的上下文被再次用于 mock 时, 开启新的一轮 mock:
+// 清除取消标记、接口代理缓存和原始值备份(下一次 BackUpTo 会备份变量当前的值)
+func (c *IContext) Reactivate() {
+	c.p.canceled = false
+	c.p.ifaceCache = make(map[string]*hack.Iface, 32)
+	c.p.originIface = nil
+	c.p.originIfaceValue = nil
+}
+
 // Cached 获取缓存数据
 func (c *IContext) Cached(key string) (v *hack.Iface, ok bool) {
 	v, ok = c.p.ifaceCache[key]
